@@ -270,6 +270,11 @@ def check_combinators(fx, rep, rule):
                 rep.check(rule, "%s/parse_until_no_newline/predicate" % rule, r is not None and r[0] == NL and len(r[1]) == 1,
                           loc=F.short_file(fx.bodies[pn[0]]["sp"]), found="stop set = %s U %s" % (sorted(r[0]) if r else "?", sorted(r[1]) if r else "?"),
                           expected="{\\r,\\n} U caller's predicate")
+            else:
+                # no (or more than one) scan predicate built here: the scan is not provably stopped by line terminators
+                rep.violation(rule, "%s/parse_until_no_newline/predicate" % rule, loc=F.short_file(fx.bodies[pn[0]]["sp"]),
+                              found="%d scan-predicate closures in parse_until_no_newline" % len(clos),
+                              expected="one predicate |b| is_newline(b) || predicate(b) handed to the scan: {\\r,\\n} U caller's predicate")
             ok_all = ok_all and good
     return ok_all
 
